@@ -14,8 +14,29 @@ from interp import Interp, explore
 
 
 def get_trans(env, unsafe=False):
+    """transitions of all opcode arms; shared between the checks of one tree through an on-disk
+    cache keyed by the tree digest (the cache only stores results of this same analysis)"""
     def build():
-        res, dt = trans.all_transitions(env.prog, env.ctx, depth_bound=env.depth_bound(), unsafe_mode=(None if unsafe else False))
+        import os, pickle, facts, sys
+        d = os.path.join(facts.facts_dir(), "derived")
+        fn = os.path.join(d, "trans-%s-D%d.pkl" % ("unsafe" if unsafe else "safe", env.depth_bound()))
+        if os.path.exists(fn) and not os.environ.get("PFZ_NO_CACHE"):
+            try:
+                with open(fn, "rb") as fh:
+                    return pickle.load(fh)
+            except Exception:
+                pass
+        res, dt = trans.all_transitions(env.prog, env.ctx, depth_bound=env.depth_bound(), unsafe_mode=(None if unsafe else False),
+                                        max_iter=1)
+        try:
+            os.makedirs(d, exist_ok=True)
+            sys.setrecursionlimit(100000)
+            tmp = fn + ".tmp%d" % os.getpid()
+            with open(tmp, "wb") as fh:
+                pickle.dump(res, fh, protocol=4)
+            os.replace(tmp, fn)
+        except Exception as e:
+            sys.stderr.write("note: transition cache not written: %r\n" % (e,))
         return res
     return env.memo(("trans", unsafe), build)
 
